@@ -370,7 +370,7 @@ func runC05(c *fw.Case) {
 		g, ok = buildGoldenOpt(c, c.R, 4, 30, c.Index%10 == 8)
 		// every 3rd case wants a store stage with SEVERAL stores: the storage scan and the squasher then deal with units in
 		// which one store has its snapshot and another only its partial
-		for attempt := 0; ok && c.Index%3 == 0 && c.Index%10 != 8 && attempt < 40; attempt++ {
+		for attempt := 0; ok && c.Index%3 == 0 && c.Index%10 != 8 && attempt < 12; attempt++ {
 			multi := false
 			if pl, err := g.s.cl.PlanFor(g.req); err == nil {
 				for _, st := range pl.Graph.StagedUsedModules() {
